@@ -30,7 +30,7 @@ PROPERTY = "C23"
 LEVEL = "exploration"
 TECHNIQUE = "Hypothesis-generated datagram histories + bounded exhaustive enumeration of short counter sequences (also across the 255->0 wrap), real UDP tunnel / device-management connection on a virtual-time loop vs simulated gateway and a mod-256 reference model; wire-log oracle"
 RULE = (
-    "case = (connection kind: UDPTunnel auto_reconnect on/off | UDPDeviceManagementConnection, in-order prefix length, list of ops (gap, kind, arg, delivery delay)); "
+    "case = (connection kind: UDPTunnel auto_reconnect on/off | UDPDeviceManagementConnection, route_back off/on (NAT mode), in-order prefix length, list of ops (gap, kind, arg, delivery delay)); "
     "kinds: e expected, r expected-1, o expected+k (k in 1..254), a absolute counter, d counter of the previous datagram, b burst of n in-order frames, x server DisconnectRequest + new handshake; "
     "delivery delays 5 ms..1 s reorder datagrams, gaps 0..2.5 s straddle the 2 s out-of-order timer; every symbol sequence over {e,r,o+1,o+128,d,x,2.1 s pause} up to length 4 (quick) / 6 (thorough) "
     "is enumerated from expected=0 and up to length 2 / 4 from expected=254; UDP tunnel: 0..3 datagrams (counters 0,0 / 0,1 / 0,1,2 / 0,0,1 / 1 / 255 / random) handed over in the SAME loop iteration as the ConnectResponse "
@@ -101,7 +101,7 @@ def execute(case):
         gw.attach(loop)
         if conn == "tunnel":
             xknx = XKNX()
-            client = UDPTunnel(xknx, up, gateway_ip=GW_ADDR[0], gateway_port=GW_ADDR[1], local_ip="10.0.0.2", auto_reconnect=case["auto_reconnect"], auto_reconnect_wait=1)
+            client = UDPTunnel(xknx, up, gateway_ip=GW_ADDR[0], gateway_port=GW_ADDR[1], local_ip="10.0.0.2", route_back=bool(case.get("route_back")), auto_reconnect=case["auto_reconnect"], auto_reconnect_wait=1)
         else:
 
             class Recording(UDPDeviceManagementConnection):
@@ -111,7 +111,7 @@ def execute(case):
                     up(raw_cemi)
                     super()._cemi_received(raw_cemi)
 
-            client = Recording(gateway_ip=GW_ADDR[0], gateway_port=GW_ADDR[1], local_ip="10.0.0.2", indication_callback=lambda cemi: info["ind"].append(bytes(cemi.data.data)))
+            client = Recording(gateway_ip=GW_ADDR[0], gateway_port=GW_ADDR[1], local_ip="10.0.0.2", route_back=bool(case.get("route_back")), indication_callback=lambda cemi: info["ind"].append(bytes(cemi.data.data)))
         belief = 0
         last_seq = 0
         n = 0
@@ -353,8 +353,15 @@ def _enum_shard(ctx, length: int, first: str, prefix: int) -> None:
     n = nt = 0
     for rest in itertools.product(SYMS, repeat=length - 1):
         word = first + "".join(rest)
-        for conn, ar in VARIANTS:
-            case = {"conn": conn, "auto_reconnect": ar, "prefix": prefix, "ops": [SYMS[c] for c in word], "tail": 2.5}
+        # route_back (NAT mode: the ConnectRequest carries 0.0.0.0:0 HPAIs) for the words that lead to a second connection:
+        # auto-reconnecting tunnel for server disconnects / the out-of-order timer, the other kinds for server disconnects
+        variants = [(c, a, False) for c, a in VARIANTS]
+        if prefix == 0 and ("x" in word or "g" in word or length <= 2):
+            variants.append(("tunnel", True, True))
+        if prefix == 0 and "x" in word:
+            variants += [("tunnel", False, True), ("devmgmt", False, True)]
+        for conn, ar, rb in variants:
+            case = {"conn": conn, "auto_reconnect": ar, "route_back": rb, "prefix": prefix, "ops": [SYMS[c] for c in word], "tail": 2.5}
             facts = check_case(ctx, case)
             n += 1
             if _nontrivial(facts):
@@ -373,8 +380,8 @@ def _behind_shard(ctx, bi: int, maxlen: int) -> None:
     n = nt = 0
     for length in range(1, maxlen + 1):
         for w in itertools.product(SYMS, repeat=length):
-            for ar in (True, False):
-                case = {"conn": "tunnel", "auto_reconnect": ar, "prefix": 0, "behind": [BEHIND[bi]] * 4, "ops": [SYMS[c] for c in w], "tail": 2.5}
+            for ar, rb in ((True, False), (False, False), (True, True)):
+                case = {"conn": "tunnel", "auto_reconnect": ar, "route_back": rb, "prefix": 0, "behind": [BEHIND[bi]] * 4, "ops": [SYMS[c] for c in w], "tail": 2.5}
                 facts = check_case(ctx, case)
                 n += 1
                 if facts is not None:
@@ -430,7 +437,7 @@ def cases(draw):
     if conn == "tunnel" and draw(st.booleans()):
         behind = draw(st.lists(st.lists(st.sampled_from([0, 0, 0, 1, 1, 2, 255]) | st.integers(0, 255), max_size=3), min_size=1, max_size=3))
     raises = draw(st.lists(st.tuples(st.integers(0, 30) | st.integers(prefix, prefix + 30), st.sampled_from(EXC_TYPES)), max_size=4)) if draw(st.booleans()) else []
-    return {"conn": conn, "auto_reconnect": ar, "prefix": prefix, "behind": behind, "raises": [list(r) for r in raises], "ops": [list(o) for o in ops], "tail": draw(st.sampled_from([0.5, 2.5]))}
+    return {"conn": conn, "auto_reconnect": ar, "route_back": draw(st.booleans()), "prefix": prefix, "behind": behind, "raises": [list(r) for r in raises], "ops": [list(o) for o in ops], "tail": draw(st.sampled_from([0.5, 2.5]))}
 
 
 def _hyp_oracle(ctx, case) -> None:
@@ -439,6 +446,8 @@ def _hyp_oracle(ctx, case) -> None:
         ctx.case(None, False, "inconclusive")
         return
     cls = [case["conn"] + ("+auto_reconnect" if case["auto_reconnect"] else "")]
+    if case.get("route_back"):
+        cls.append("route_back")
     if facts["wrapped"]:
         cls.append("wrap-around")
     if facts["handshakes"] > 1:
